@@ -195,3 +195,34 @@ func opLALR(req request) response {
 		"action": actions, "conflicts": conflicts, "goto": gotos}
 	return res
 }
+
+func init() {
+	register("spec_dfa", opSpecDFA)
+}
+
+// opSpecDFA runs spec.Parse and Spec.DFA: the combined scanner automaton with its terminal map, or the error.
+func opSpecDFA(req request) response {
+	s, err := parseSpec(req)
+	if err != nil {
+		return response{"outcome": "error", "stage": "parse", "error": err.Error()}
+	}
+	res := response{"outcome": "ok", "definitions": dumpSpec(s)["definitions"]}
+	d, termMap, derr := s.DFA()
+	if derr != nil {
+		res["dfa_error"] = derr.Error()
+		res["dfa_nil"] = d == nil && termMap == nil
+		return res
+	}
+	res["dfa"] = dumpDFA(d)
+	tm := map[string][]int{}
+	for t, states := range termMap {
+		l := []int{}
+		for _, st := range states {
+			l = append(l, int(st))
+		}
+		sort.Ints(l)
+		tm[string(t)] = l
+	}
+	res["term_map"] = tm
+	return res
+}
